@@ -62,7 +62,13 @@ if (m && typeof m === "object") {
     if (i == failAfter) { throw new Error("told to fail"); }
     _.out(emits[i]);
   }
+  var fw = m.fwd && m.fwd[mid];
+  if (fw) {
+    // forward what I received: one object, re-addressed and emitted once per target
+    for (var j = 0; j < fw.to.length; j++) { fw.msg.to = fw.to[j]; _.out(fw.msg); }
+  }
   if (failAfter >= emits.length) { throw new Error("told to fail"); }
+  if (m.wreck && m.wreck[mid]) { return {"log": log, "wreck": true}; }
 }
 return {"log": log};
 `
@@ -88,9 +94,13 @@ func vfRecorderSpecV(timed bool, version int) *core.Spec {
 				ActionSource: &core.ActionSource{Interpreter: "ecmascript", Source: src},
 				Branches: &core.Branches{Type: "bindings", Branches: []*core.Branch{
 					{Pattern: map[string]interface{}{"actionError": "?e"}, Target: "cleanup"},
+					{Pattern: map[string]interface{}{"wreck": true}, Target: "wreck"},
 					{Target: "start"},
 				}},
 			},
+			// told to wreck itself: after the recording action has completed (and emitted), the
+			// next step's action fails with no branch to follow - the machine ends at the error node
+			"wreck": {ActionSource: &core.ActionSource{Interpreter: "ecmascript", Source: `throw new Error("wrecked");`}},
 			"cleanup": {
 				ActionSource: &core.ActionSource{Interpreter: "ecmascript", Source: `return {"log": _.bindings.log || [], "failed": (_.bindings.failed || 0) + 1};`},
 				Branches:     &core.Branches{Type: "bindings", Branches: []*core.Branch{{Target: "start"}}},
@@ -199,6 +209,13 @@ func (g *vfGen) message(hops int) map[string]interface{} {
 			}
 		}
 		m["emit"] = em
+	}
+	if hops > 0 && len(g.mids) > 0 && c.Chance(1, 6, "forwards") {
+		targets := append(append([]string{}, g.mids...), "nobody")
+		t1 := c.Intn(len(targets), "fwd1")
+		t2 := (t1 + 1 + c.Intn(len(targets)-1, "fwd2")) % len(targets)
+		m["fwd"] = map[string]interface{}{g.mids[c.Intn(len(g.mids), "forwarder")]: map[string]interface{}{
+			"msg": map[string]interface{}{"id": g.id()}, "to": []interface{}{targets[t1], targets[t2]}}}
 	}
 	if g.fail && c.Chance(1, 3, "fails") {
 		fm := map[string]interface{}{}
@@ -355,6 +372,21 @@ func vfPredict(msg map[string]interface{}, present map[string]bool, recorders ma
 					continue // a failing action emits nothing (and records nothing: its bindings are discarded)
 				}
 				md.seen[mid] = append(md.seen[mid], id)
+				if fw, ok := mm["fwd"].(map[string]interface{}); ok {
+					if f, ok := fw[mid].(map[string]interface{}); ok {
+						emits = append([]interface{}{}, emits...)
+						tos, _ := f["to"].([]interface{})
+						for _, to := range tos {
+							cp, _ := vfJSONCopy(f["msg"]).(map[string]interface{})
+							cp["to"] = to
+							emits = append(emits, cp)
+						}
+					}
+				}
+				if wm, ok := mm["wreck"].(map[string]interface{}); ok && wm[mid] == true {
+					// records and emits as told, then goes to the error node for good
+					poisoned[mid] = true
+				}
 				if nm, ok := mm["nan"].(map[string]interface{}); ok && nm[mid] == true {
 					poisoned[mid] = true
 					continue // records the message, then returns an unencodable state without emitting
